@@ -1,5 +1,6 @@
 (** Clause-level soundness of the proof-of-work checks and their use in the pipelines. *)
 From Coq Require Import ZArith List Bool Lia.
+From VB Require Gen.Consts.
 From VB Require Import Arith.CompactDefs Stateless.EmbedDefs Stateless.EmbedProofs Stateless.MerkleDefs
      Stateless.CheckDefs Stateless.CheckProofs Stateless.PowDefs.
 Import ListNotations.
@@ -87,11 +88,30 @@ Qed.
     timestamp is not before the start of the progpow era *)
 Lemma vbk_plausibility_sound forkHeight startTime blockTime enabled height timestamp :
   vbk_plausibility forkHeight startTime blockTime enabled height timestamp = 0 ->
-  forkHeight <= height /\ u32 (Z.quot height 8000) <= 4096 /\ (enabled = true -> startTime <= timestamp).
+  forkHeight <= height /\ u32 (Z.quot height 8000) < 4096 /\ (enabled = true -> startTime <= timestamp).
 Proof.
   unfold vbk_plausibility. intros H.
   destruct (Z.ltb_spec height forkHeight); [discriminate|].
-  destruct (Z.ltb_spec 4096 (u32 (Z.quot height 8000))); [discriminate|].
+  destruct (Z.leb_spec 4096 (u32 (Z.quot height 8000))); [discriminate|].
   split; [lia|]. split; [lia|]. intros ->. cbn [negb] in H.
   destruct (Z.ltb_spec timestamp startTime); [discriminate|]. lia.
 Qed.
+
+(** an accepted height indexes inside the [VBK_MAX_CALCULATED_EPOCHS_SIZE]-entry tables
+    (dag_sizes / cache_sizes / dag_seeds) that the hash of an accepted header reads next; the
+    variant of the rule as first coded ([epoch > 4096]) let epoch 4096 through *)
+Lemma vbk_plausibility_epoch_in_table forkHeight startTime blockTime enabled height timestamp :
+  vbk_plausibility forkHeight startTime blockTime enabled height timestamp = 0 ->
+  0 <= u32 (Z.quot height 8000) < VB.Gen.Consts.VBK_MAX_CALCULATED_EPOCHS_SIZE.
+Proof.
+  intros H. apply vbk_plausibility_sound in H. destruct H as [_ [H _]].
+  unfold VB.Gen.Consts.VBK_MAX_CALCULATED_EPOCHS_SIZE. split; [|exact H].
+  apply u32_range.
+Qed.
+
+Definition vbk_plausibility_v0 (forkHeight : Z) (height : Z) : Z :=
+  if height <? forkHeight then 1 else if 4096 <? u32 (Z.quot height 8000) then 2 else 0.
+
+Lemma vbk_plausibility_epoch_v0_refuted :
+  exists height, vbk_plausibility_v0 0 height = 0 /\ ~ u32 (Z.quot height 8000) < 4096.
+Proof. exists 32768000. split; [vm_compute; reflexivity | vm_compute; discriminate]. Qed.
